@@ -9,8 +9,27 @@ from ..facts import short
 from ..frontend import NUMERIC
 
 
-def tmpl_name(name):
-    return re.sub(r"<.*", "", name)
+def tmpl_name(qname):
+    """Qualified name (phqx `qname`: no function template arguments) with the template-argument lists of the
+    enclosing classes removed: PhQ::DimensionalScalar<U,T>::Print -> PhQ::DimensionalScalar::Print."""
+    depth, last = 0, -1
+    for i, c in enumerate(qname):
+        if c == "<" and not qname.startswith("operator", max(0, i - 8), i) and not qname.startswith("operator<", max(0, i - 9), i):
+            depth += 1
+        elif c == ">" and depth > 0:
+            depth -= 1
+        elif c == ":" and depth == 0 and qname.startswith("::", i):
+            last = i
+    head, tail = (qname[:last], qname[last:]) if last >= 0 else ("", qname)
+    out, depth = [], 0
+    for c in head:
+        if c == "<":
+            depth += 1
+        elif c == ">":
+            depth -= 1
+        elif depth == 0:
+            out.append(c)
+    return "".join(out) + tail
 
 
 def classify(v):
@@ -54,7 +73,7 @@ def run(chk):
             if cls == "unordered":
                 by_reader = {}
                 for f in rs:
-                    by_reader.setdefault(tmpl_name(f["name"]), []).append(f)
+                    by_reader.setdefault(tmpl_name(f.get("qname", f["name"])), []).append(f)
                 if not by_reader:
                     chk.holds("R1", "%s|<no reader>|%s" % (v["name"], T), "unordered but never read", short(v["loc"]), nontrivial=False)
                 for rn, fl in sorted(by_reader.items()):
